@@ -16,7 +16,7 @@ def main(tier, seed):
     from fv import callkinds
 
     callkinds.run(rep, "C15")   # CallKinds.tla: what becomes of the value a call returns
-    design_trace.run(rep, "C15", n, seed, {"nmax": 14, "resps": ["y", "f", "o", "h", "g", "z", ""], "salt": 15})
+    design_trace.run(rep, "C15", n, seed, {"nmax": 14, "resps": ["y", "f", "o", "h", "g", "z", "kcat", ""], "salt": 15})
     # "returned unchanged": missing values in columns the formula does not use must not cost the response a row
     design_trace.run(rep, "C15", n // 3, seed, {"nmax": 14, "resps": ["y", "f", "o", "z"], "salt": 16, "na_rate": 0.2, "na_cols": ("u1", "u2", "w", "xc"), "only_resp": True})
     c15_forms.run(rep, 400 if tier == "quick" else 6000, seed)
